@@ -48,9 +48,18 @@ func checkWriterDoesNotMutateInputs(p *Program, r *Result, rule string) {
 				if f := x.Common().StaticCallee(); f != nil && f.Origin() != nil {
 					name = staticCalleeName2(f.Origin())
 				}
-				mut := stableSorts[name] || unstableSorts[name] || name == "slices.Reverse" || name == "sort.Strings" || name == "sort.Ints"
-				if b, ok := x.Common().Value.(*ssa.Builtin); ok && b.Name() == "copy" {
-					mut = true
+				mut := isInPlaceReorder(x)
+				// the record is handed on to a function of the package that modifies it
+				if g := x.Common().StaticCallee(); g != nil && g.Blocks != nil && p.isRepoFunc(g) && p.funcPkgPath(g) == pkgMcap {
+					for i, a := range x.Common().Args {
+						if tn, isP := isRecordParam(a); isP {
+							if what := mutatesParam(p, oc, g, i, 2); what != "" {
+								bad++
+								r.violated(rule, fname, "call of "+trimPkg(funcName(g))+" on the record argument", p.pos(x.Pos()),
+									"the method hands the "+tn+" it was asked to write to "+funcName(g)+", which modifies it ("+what+"); the bytes written then depend on what was done with the record value before, and data the caller accumulated is reordered or overwritten in place")
+							}
+						}
+					}
 				}
 				if !mut || len(x.Common().Args) == 0 {
 					continue
@@ -82,4 +91,74 @@ func checkWriterDoesNotMutateInputs(p *Program, r *Result, rule string) {
 	if bad == 0 {
 		r.held(rule, "mcap.Writer", "record arguments are read-only", "", itoa(n)+" Writer methods: no store into a record argument, no in-place reordering of its slices")
 	}
+}
+
+func isInPlaceReorder(x ssa.CallInstruction) bool {
+	name := staticCalleeName(x.Common())
+	if f := x.Common().StaticCallee(); f != nil && f.Origin() != nil {
+		name = staticCalleeName2(f.Origin())
+	}
+	if stableSorts[name] || unstableSorts[name] || name == "slices.Reverse" || name == "sort.Strings" || name == "sort.Ints" {
+		return true
+	}
+	if b, ok := x.Common().Value.(*ssa.Builtin); ok && b.Name() == "copy" {
+		return true
+	}
+	return false
+}
+
+// mutatesParam: g stores into a field of its idx-th (pointer-to-struct) parameter, reorders / copies into a slice held
+// in one of its fields, or hands it to a function that does. Returns a description, "" if it does not.
+func mutatesParam(p *Program, oc *originCtx, g *ssa.Function, idx int, depth int) string {
+	if g == nil || g.Blocks == nil || idx >= len(g.Params) {
+		return ""
+	}
+	prm := ssa.Value(g.Params[idx])
+	nt, _ := structOf(prm.Type())
+	if nt == nil {
+		return ""
+	}
+	tname := nt.Obj().Name()
+	for _, in := range instrsOf(g) {
+		switch x := in.(type) {
+		case *ssa.Store:
+			if fa, ok := x.Addr.(*ssa.FieldAddr); ok && fa.X == prm {
+				_, f, _, _ := fieldRef(fa)
+				return "stores to " + tname + "." + f + " at " + p.pos(x.Pos())
+			}
+			// element store into a slice held in a field of the parameter
+			if ia, ok := x.Addr.(*ssa.IndexAddr); ok {
+				if u, ok := ia.X.(*ssa.UnOp); ok {
+					if fa, ok := u.X.(*ssa.FieldAddr); ok && fa.X == prm {
+						_, f, _, _ := fieldRef(fa)
+						return "overwrites an element of " + tname + "." + f + " at " + p.pos(x.Pos())
+					}
+				}
+			}
+		case ssa.CallInstruction:
+			if isInPlaceReorder(x) && len(x.Common().Args) > 0 {
+				dst := x.Common().Args[0]
+				if mi, ok := dst.(*ssa.MakeInterface); ok {
+					dst = mi.X
+				}
+				for _, o := range oc.origins(dst) {
+					if strings.HasPrefix(o, "field:"+tname+".") {
+						return "reorders " + strings.TrimPrefix(o, "field:") + " in place at " + p.pos(x.Pos())
+					}
+				}
+			}
+			if depth > 0 {
+				if h := x.Common().StaticCallee(); h != nil && h != g && h.Blocks != nil && p.isRepoFunc(h) {
+					for i, a := range x.Common().Args {
+						if a == prm {
+							if what := mutatesParam(p, oc, h, i, depth-1); what != "" {
+								return what
+							}
+						}
+					}
+				}
+			}
+		}
+	}
+	return ""
 }
